@@ -73,8 +73,10 @@ SPEC = dict(
          "lookupNamespaceURI x {null,p,q,r,s,xml,xmlns}, lookupPrefix / isDefaultNamespace x {null,'',u1,u2,v,XML-URI,XMLNS-URI} against the DOM L3 Core Appendix B "
          "algorithms re-implemented over a reference tree. build = every sequence of <= k operations from a 24-operation alphabet (createElementNS / createElement / "
          "setAttributeNS incl. xmlns declarations / setAttribute / text / cursor-up / setPrefix) on an empty DOMDocument, same node and lookup checks, no parser involved "
-         "(k=3 quick, 4 thorough). witness = the minimal repro of every entry of the driver's KNOWN_DEFECTS list, checked strictly. Non-trivial = (document, version) pairs "
-         "classified by the model + legal builder programs.",
+         "(k=3 quick, 4 thorough). witness = the minimal repro of every entry of the driver's KNOWN_DEFECTS list, checked strictly. Plans (part = space:alphabets, ':v11' = all "
+         "documents also as XML 1.1): quick = witness, one:mid, one:small:v11, one:attr2, two:env6:mid, two:env:use2, sib:env4:decl1:use, ladder:quick, build:3; thorough = witness, "
+         "one:full, two:env:mid, two:env:use2, two:env4:mid2, two:envs:small:v11, three:env6:midmod:leaf, sib:env6:decl1:use, ladder:full, build:4. Non-trivial = (document, version) "
+         "pairs classified by the model + legal builder programs.",
     trusted_base=["expat 2.5.0 (namespace mode, Namespaces 1.0) as second oracle for XML 1.0 documents", "drv/c06_model.hpp (scoping stack, Appendix B)", "clang 14 ASan+UBSan"],
     assumptions=[
         "XML 1.1 documents (prefix un-declaration) are judged by the scoping-stack model only: expat implements Namespaces 1.0",
@@ -98,7 +100,7 @@ SPEC = dict(
         quick=[_ns("quick-plan-depth2", "--space", "multi", "--parts",
                    "witness,one:mid,one:small:v11,one:attr2,two:env6:mid,two:env:use2,sib:env4:decl1:use,ladder:quick,build:3")],
         thorough=[_ns("thorough-plan-depth3", "--space", "multi", "--parts",
-                      "witness,one:full,two:envs:mid,two:env:use2,two:env4:mid2,two:envs:small:v11,three:env4:midmod:leaf,sib:env6:decl1:use,ladder:full,build:4")],
+                      "witness,one:full,two:env:mid,two:env:use2,two:env4:mid2,two:envs:small:v11,three:env6:midmod:leaf,sib:env6:decl1:use,ladder:full,build:4")],
     ),
     manifest=dict(
         text="Every document of the stated shape products (depth <= 2 quick / <= 3 thorough), the map-growth and >100-attribute ladders and every DOM builder program <= k steps is "
